@@ -44,3 +44,9 @@ package bpv7
 //@ requires forall k int :: 0 <= k && k < len(bs) ==> blocksNonNil(bs[k])
 //@ assigns elems(bs)
 //@ ensures result ==> len(bs) >= 1
+
+// What the store assumes of ReassembleFragments (its parts are under contract above): the outcome is a function of
+// the slice of fragments handed in.
+// govc:trusted ReassembleFragments
+//@ assigns elems(bs)
+//@ ensures (err == nil) == uf("reassemblyOK", bool, ref(bs))
